@@ -497,7 +497,7 @@ class Table(JupyterMixin):
         ):
             _max_width = (
                 max_width
-                if self.min_width is None
+                if self.min_width is None or self.expand
                 else min(self.min_width - extra_width, max_width)
             )
             pad_widths = ratio_distribute(_max_width - table_width, widths)
